@@ -8,6 +8,7 @@ package uniformdh
 //@ axiom [pmod_fits] PMOD() > 2 && BEFITS(PMOD(), 192)
 //@ globalinv groupOK := modpGroup != nil && modpGroup.val == PMOD() && gen != nil && gen.val == 2
 
+//@ pred privOK(k) := k != nil && k.privateKey != nil && k.privateKey.val >= 0
 //@ pred pubInv(pub) := pub != nil && (pub.bytes != nil ==> len(pub.bytes) == 192)
 
 //@ func (*PublicKey).SetBytes(pub, pubBytes) (err)
@@ -37,7 +38,7 @@ package uniformdh
 // shared secret = (peer's wire value)^x mod p, exactly 192 bytes
 //@ func Handshake(privateKey, publicKey) (ss, err)
 //@   serves C13 C10
-//@   requires privateKey != nil && publicKey != nil && privateKey.privateKey != nil && publicKey.publicKey != nil && privateKey.privateKey.val >= 0
+//@   requires privOK(privateKey) && publicKey != nil && publicKey.publicKey != nil
 //@   ensures [C13:secret_is_Y_x] err == nil && len(ss) == 192 && seq(ss) == BEPAD(MODEXP(publicKey.publicKey.val, privateKey.privateKey.val, PMOD()), 192) && fresh(ss)
 
 // Agreement over the contracts: with even private values x, y and either wire form on each side,
